@@ -159,6 +159,7 @@ def run(prop, tier, seed):
         hit["cache_hit"] = True
         return [hit]
     res = {"suite": "join_" + ("par" if want_par else "seq"), "kind": "enum+rand", "params": params, "cache_hit": False}
+    res["rule"] = "each case = (tuple shape, driving variant, membership of every member over the layer-boundary index family or random, real/dead/unmerged entities, pool size or split tree); one logged join per case, checked by TLC against Join_L0; distinct = distinct scripts"
     st, _ = C.model_check("Bits_L1.tla", bits_cfg(2 if tier == "quick" else 3), "bits_" + tier, workers=8, want_scripts=False)
     res["mc"] = st
     scripts = gen_scripts(seed, tier, want_par)
